@@ -86,6 +86,64 @@ def results(ctx):
             if defs and all(isinstance(d, ast.List) and not d.elts for _, d in defs):
                 kind = 'a list allocated here'
         ctx.ob(kind is not None, u, 'match returns %s: %s' % (kind or 'something else', norm(r)), node=r)
+    # the collection branch, case by case on the pattern's type: a list pattern returns the list
+    # of sub-results, a set / frozenset pattern a container of *its own* type built from them
+    import builtins
+    from ..util import case_paths
+    coll = [n for n in u.own_nodes() if isinstance(n, ast.If) and isinstance(n.test, ast.Call) and is_name(n.test.func, 'isinstance')
+            and len(n.test.args) == 2 and is_name(n.test.args[0], spec) and isinstance(n.test.args[1], ast.Tuple)
+            and {x.id for x in n.test.args[1].elts if isinstance(x, ast.Name)} >= {'list', 'set', 'frozenset'}]
+    ctx.require(len(coll) == 1, '_glom_match: list / set / frozenset branch not found')
+
+    def decider(case):
+        ty = getattr(builtins, case)
+
+        def classes(e):
+            out = []
+            for x in (e.elts if isinstance(e, (ast.Tuple, ast.List, ast.Set)) else [e]):
+                if not (isinstance(x, ast.Name) and isinstance(getattr(builtins, x.id, None), type)):
+                    return None
+                out.append(getattr(builtins, x.id))
+            return out
+
+        def decide(t):
+            if isinstance(t, ast.BoolOp):
+                vals = [decide(v) for v in t.values]
+                if isinstance(t.op, ast.And):
+                    return False if False in vals else (True if all(v is True for v in vals) else None)
+                return True if True in vals else (False if all(v is False for v in vals) else None)
+            if isinstance(t, ast.UnaryOp) and isinstance(t.op, ast.Not):
+                v = decide(t.operand)
+                return None if v is None else not v
+            if isinstance(t, ast.Call) and is_name(t.func, 'isinstance') and len(t.args) == 2 and is_name(t.args[0], spec):
+                cs = classes(t.args[1])
+                return None if cs is None else issubclass(ty, tuple(cs))
+            if isinstance(t, ast.Compare) and len(t.ops) == 1 and norm(t.left) == 'type(%s)' % spec:
+                cs = classes(t.comparators[0])
+                if cs is None:
+                    return None
+                o = t.ops[0]
+                if isinstance(o, (ast.Is, ast.Eq, ast.In)):
+                    return ty in cs
+                if isinstance(o, (ast.IsNot, ast.NotEq, ast.NotIn)):
+                    return ty not in cs
+            return None
+        return decide
+    for case in ('list', 'set', 'frozenset'):
+        outs, _ = case_paths(coll[0].body, decider(case))
+        shown, good = [], True
+        for kind, e, st, env in outs:
+            if kind != 'return':
+                continue
+            txt = norm(e)
+            shown.append(txt)
+            if case == 'list':
+                good = good and (txt == '[]' or isinstance(e, (ast.List, ast.ListComp)) or matches(e, 'list($$x)'))
+            else:
+                good = good and (matches(e, 'type(%s)($$x)' % spec) or matches(e, '%s($$x)' % case))
+        ctx.ob(good and bool(shown), u, 'a %s pattern returns a %s of the sub-results: %s' % (case, case, [s_[:40] for s_ in shown]),
+               '' if good else 'the result is not rebuilt with the pattern\'s own type: a %s pattern hands back a list '
+               '(unhashable in key / element position)' % case, node=coll[0])
     # what is collected into the containers: the sub-results
     apps = [c for c in calls_in(u) if isinstance(c.func, ast.Attribute) and c.func.attr == 'append']
     for a in apps:
